@@ -1,4 +1,6 @@
 """C19 - assets trade only while they belong to the universe; optimisers (DESIGN C19: S1..S3)."""
+from fractions import Fraction
+
 from .. import terms as T
 from ..lib import summarise, heap_writes, V, A, normal, cond_str, no_inline, writers_of_attr, all_terms_of
 from ..symex import Valuation, default_policy
@@ -24,12 +26,45 @@ def check(ctx):
         ctx.require(fmt(it) == 'self.asset_dates.items()' and len(tg) == 2 and comp[2] == tg[0], 'C19.S1', 'every configured asset is considered and the asset itself is returned',
                     fn.site(), fmt(comp)[:160], key='C19.S1|iter')
         date = fmt(tg[1]) if len(tg) == 2 else '?'
+        # numeric fields the filter may read take the value the constructor gives them by default
+        defaults = {}
+        init = ctx.fn('DynamicUniverse.__init__')
+        for ip in summarise(ctx, init, policy=default_policy):
+            for w in heap_writes(ip):
+                if w.loc[0] == 'attr' and w.loc[1] == V('self') and w.value is not None:
+                    dv = init.defaults().get(w.value[1]) if w.value[0] == 'var' else None
+                    if dv is not None and hasattr(dv, 'value') and isinstance(dv.value, (int, float)) and not isinstance(dv.value, bool):
+                        defaults['self.' + w.loc[2]] = dv.value
+                    elif w.value[0] == 'num':
+                        defaults['self.' + w.loc[2]] = w.value[1]
         n = bad = 0
         for none in (True, False):
             for rel in '<=>':
                 val = Valuation(isnone={date: none}, order={('dt', date): rel})
                 vs = [val.evalbool(c) for c in ifs]
                 n += 1
+                if None in vs:
+                    # the filter computes with the dates: evaluate it on concrete instants (in days) around the entry
+                    vs = None
+                    for dtv in ({'<': [98, 99, Fraction(143999, 1440)], '=': [100], '>': [Fraction(144001, 1440), 101, 130]}[rel]):
+                        nv = Valuation(isnone={date: none}, nums=dict(defaults, **{'dt': dtv, date: 100}))
+                        got_ = [nv.evalbool(c) for c in ifs]
+                        if None in got_:
+                            vs = [None]
+                            break
+                        exp_ = (not none) and dtv >= 100
+                        if all(got_) != exp_:
+                            bad += 1
+                            ctx.violation('C19.S1', 'an asset is a member iff it has an entry date and entry <= dt (inclusive)', fn.site(),
+                                          'entry date %s at day 100, dt at day %s: code says %s, property says %s' % ('absent' if none else 'present', float(dtv),
+                                                                                                                    'member' if all(got_) else 'not a member', 'member' if exp_ else 'not a member'),
+                                          key='C19.S1|filter-numeric|%s' % rel)
+                            vs = got_
+                            break
+                        vs = got_
+                    if vs is not None and None not in vs:
+                        continue
+                    vs = [None]
                 if None in vs:
                     ctx.undecided('C19.S1', 'the membership filter compares only (entry date is None, dt vs entry date)', fn.site(),
                                   'filter %s depends on %s' % ([fmt(c) for c in ifs], sorted(set(val.unknown))[:3]))
@@ -48,6 +83,10 @@ def check(ctx):
             ctx.holds('C19.S1', 'membership filter agrees with the oracle on all %d (is-None x ordering) cases' % n, fn.site())
         ctx.sample({'rule': 'C19.S1', 'filter': [fmt(c) for c in ifs], 'cases': n})
     ctx.sub(pure, 'C19.S1', qn, ps)
+    for ip in summarise(ctx, 'DynamicUniverse.__init__', policy=default_policy):
+        w = heap_writes(ip, 'asset_dates')
+        ctx.require(len(w) == 1 and w[0].value == V('asset_dates'), 'C19.S1', 'the universe keeps the entry-date map it is given, unmodified (None stays None)',
+                    w[0].site if w else ctx.fn('DynamicUniverse.__init__').site(), [fmt(x.value)[:120] for x in w], key='C19.S1|map-unmodified')
     ws = writers_of_attr(ctx.M, 'asset_dates')
     ctx.require(all(w.fn.qn == 'DynamicUniverse.__init__' for w in ws) and ws, 'C19.S1', 'the entry-date map is set only by the constructor', ws[0].where if ws else None,
                 [w.fn.qn for w in ws], key='C19.S1|asset_dates')
@@ -86,16 +125,21 @@ def check(ctx):
     qn = 'EqualWeightPortfolioOptimiser.__call__'
     fn = ctx.fn(qn)
     ps = summarise(ctx, qn, policy=default_policy)
-    ok1 = len(ps) == 1 and ps[0].outcome == 'return' and ps[0].value[0] == 'comp' and ps[0].value[1] == 'dict' and len(ps[0].value[3]) == 1
-    if ctx.require(ok1 if ok1 else None, 'C19.S3', 'the equal-weight optimiser is one dict comprehension', fn.site(), [fmt(p.value)[:120] if p.value else p.outcome for p in ps]):
-        v = ps[0].value
+    rets = [p for p in ps if p.outcome == 'return']
+    ctx.require(len(rets) >= 1, 'C19.S3', 'the equal-weight optimiser returns', fn.site())
+    for p_ in rets:
+        v = p_.value
+        good = v is not None and v[0] == 'comp' and v[1] == 'dict' and len(v[3]) == 1
+        if not good:
+            ctx.violation('C19.S3', 'the equal-weight optimiser returns equal weights on every path', fn.site(),
+                          'path [%s] returns %s' % (cond_str(p_)[:100], fmt(v)[:100] if v else None), key='C19.S3|equal-path')
+            continue
         tg, it, ifs = v[3][0]
         keys_ok = fmt(it) in ('initial_weights.keys()', 'initial_weights', 'LIST(initial_weights.keys())', 'LIST(initial_weights)') and not ifs and v[2][1][0] == tg[0]
         ctx.require(keys_ok, 'C19.S3', 'equal weights are given to exactly the assets passed in (no asset dropped)', fn.site(), fmt(v)[:200], key='C19.S3|equal-keys')
         w = v[2][1][1]
         alts = []
         for cnt in (('call', ('ext', 'LEN'), (it,), ()), ('call', ('ext', 'LEN'), (V('initial_weights'),), ()), ('call', ('ext', 'LEN'), (('call', ('meth', 'keys'), (V('initial_weights'),), ()),), ())):
-            alts.append(T.t_div(A('self', 'scale'), ('call', ('ext', 'FLOAT'), (cnt,), ())))
             alts.append(T.t_div(A('self', 'scale'), cnt))
         ctx.require(any(T.teq(w, a) for a in alts), 'C19.S3', 'each weight = scale / number of assets given', fn.site(), fmt(w), key='C19.S3|equal-weight')
     ctx.sub(pure, 'C19.S3', qn, ps)
